@@ -43,6 +43,10 @@ type Case struct {
 	Entry  string `json:"entry"` // canvas | field
 	Block  int    `json:"block"` // block edge the placement was enumerated for (100 real, 6 scaled build)
 	Place  string `json:"place,omitempty"`
+	// Extra: a second scalar attribute on the same canvas — "same-field" (a further Float1Functions entry
+	// of the marched field), "other-field-before" / "other-field-after" (a separate field carrying only
+	// that attribute, added before / after). The marched surface is that of the position attribute alone.
+	Extra string `json:"extra,omitempty"`
 }
 
 // ---- reference distance functions (plain Go, written from the textbook definitions) ----
